@@ -78,7 +78,8 @@ Definition pre_ok (g : fname) (a : astate) : bool :=
    end) && (negb (pre_real g) || is_real a).
 
 (* after a bump *)
-Definition a_consume (a : astate) : astate := mkA None false (a_dropped a || is_real a) (a_ns a).
+(* after a bump: current = S current' > before *)
+Definition a_consume (a : astate) : astate := mkA None false (a_dropped a || is_real a) true.
 (* after something that may or may not have consumed *)
 Definition a_forget (a : astate) : astate := mkA None false (a_dropped a) (a_ns a).
 (* after a call of g *)
@@ -124,7 +125,7 @@ Fixpoint chk (f : fname) (bne : bool) (c : cmd) (a : astate) : option astate :=
                    | _ => Some (a_forget a)
                    end
   | IfExpect k t e =>
-      obind (chk f bne t (mkA None false true (a_ns a))) (fun a1 =>
+      obind (chk f bne t (mkA None false true true)) (fun a1 =>
       obind (chk f bne e (a_forget a)) (fun a2 => Some (a_join a1 a2)))
   | Err _ _ => Some a
   | MarkKind k => if is_real a then Some (mkA (Some [k]) true (a_dropped a) false)
@@ -154,3 +155,423 @@ Proof. destruct f; vm_compute; reflexivity. Qed.
 Definition max_rank : nat := 10.
 Lemma rank_le : forall f, rank f <= max_rank.
 Proof. destruct f; cbn; unfold max_rank; lia. Qed.
+
+(* ---------------------------------------------------------------------------------------- *)
+(* concretisation                                                                             *)
+(* ---------------------------------------------------------------------------------------- *)
+Definition moved_or_end (before : nat) (st : pstate) : Prop := cur st <> before \/ is_at_end st = true.
+
+(* st0 = state at procedure entry, st = current state, before/bne = the Rust local `before` *)
+Record G (n : nat) (st0 : pstate) (before : nat) (bne : bool) (a : astate) (st : pstate) : Prop := mkG {
+  g_inv : Inv n st;
+  g_le : remn st <= remn st0;
+  g_before : before <= cur st;
+  g_known : forall ks, a_known a = Some ks -> exists k, peek st = Some k /\ In k ks;
+  g_real : a_real a = true -> rest st <> [];
+  g_dropped : a_dropped a = true -> remn st < remn st0;
+  g_ns : a_ns a = true -> moved_or_end before st;
+  g_bne : bne = true -> exists r1, 1 <= r1 /\ r1 <= remn st0 /\ remn st <= r1 /\ (cur st <> before -> remn st < r1)
+}.
+
+Lemma peek_some_rest : forall st k, peek st = Some k -> rest st <> [].
+Proof. intros st k H. unfold peek in H. destruct (rest st); [discriminate | discriminate]. Qed.
+
+Lemma not_at_end_rest : forall st, is_at_end st = false -> rest st <> [].
+Proof. intros st H. unfold is_at_end, peek in H. destruct (rest st); [discriminate | discriminate]. Qed.
+
+Lemma is_real_sound : forall n st0 before bne a st, G n st0 before bne a st -> is_real a = true -> rest st <> [].
+Proof.
+  intros n st0 before bne a st Hg H. unfold is_real in H. apply orb_prop in H. destruct H as [H|H].
+  - exact (g_real _ _ _ _ _ _ Hg H).
+  - destruct (a_known a) as [ks|] eqn:E; [|discriminate].
+    destruct (g_known _ _ _ _ _ _ Hg ks E) as [k [Hk _]]. eapply peek_some_rest; exact Hk.
+Qed.
+
+Lemma kinds_sub_In : forall ks ks' k, kinds_sub ks ks' = true -> In k ks -> In k ks'.
+Proof.
+  intros ks ks' k H Hin. unfold kinds_sub in H. rewrite forallb_forall in H. apply tk_in_In. apply H. exact Hin.
+Qed.
+
+(* cursor strictly forward from a position with a token => fewer tokens remain *)
+Lemma moved_remn : forall n st st', Inv n st -> Inv n st' -> remn st' <= remn st -> cur st < cur st' ->
+  1 <= remn st -> remn st' < remn st.
+Proof.
+  intros n st st' I I' Hle Hc H1. unfold remn in *.
+  pose proof (inv_cur _ _ I) as C. pose proof (inv_cur _ _ I') as C'. pose proof (inv_len _ _ I) as L. pose proof (inv_len _ _ I') as L'.
+  destruct (rest st) as [|t r]; cbn [length] in *; [lia|].
+  destruct (rest st') as [|t' r']; cbn [length] in *; lia.
+Qed.
+
+Lemma bne_step : forall n st0 before st st',
+  (exists r1, 1 <= r1 /\ r1 <= remn st0 /\ remn st <= r1 /\ (cur st <> before -> remn st < r1)) ->
+  before <= cur st -> Inv n st -> Step n st st' ->
+  exists r1, 1 <= r1 /\ r1 <= remn st0 /\ remn st' <= r1 /\ (cur st' <> before -> remn st' < r1).
+Proof.
+  intros n st0 before st st' [r1 [H1 [H2 [H3 H4]]]] Hb I S. exists r1.
+  pose proof (st_rest _ _ _ S) as R. pose proof (st_cur _ _ _ S) as C. fold (remn st') in R. fold (remn st) in R.
+  repeat split; try lia. intros Hne.
+  destruct (Nat.eq_dec (cur st) before) as [E|E]; [|specialize (H4 E); lia].
+  destruct (Nat.eq_dec (remn st) r1) as [E2|E2]; [|lia].
+  assert (remn st' < remn st); [|lia].
+  eapply moved_remn; eauto; [exact (st_inv _ _ _ S) | lia | lia].
+Qed.
+
+(* generic transfer along a step: everything that depends on the token under the cursor is forgotten *)
+Lemma G_step : forall n st0 before bne a st st' a',
+  G n st0 before bne a st -> Step n st st' ->
+  a_known a' = None -> a_real a' = false ->
+  (a_dropped a' = true -> a_dropped a = true \/ remn st' < remn st) ->
+  (a_ns a' = true -> moved_or_end before st') ->
+  G n st0 before bne a' st'.
+Proof.
+  intros n st0 before bne a st st' a' Hg S Hk Hr Hd Hn.
+  pose proof (st_rest _ _ _ S) as R. pose proof (st_cur _ _ _ S) as C. fold (remn st') in R. fold (remn st) in R.
+  pose proof (g_le _ _ _ _ _ _ Hg) as Le. pose proof (g_before _ _ _ _ _ _ Hg) as Hb.
+  constructor.
+  - exact (st_inv _ _ _ S).
+  - lia.
+  - lia.
+  - intros ks E. rewrite Hk in E. discriminate.
+  - intros E. rewrite Hr in E. discriminate.
+  - intros E. destruct (Hd E) as [D|D]; [pose proof (g_dropped _ _ _ _ _ _ Hg D); lia | lia].
+  - exact Hn.
+  - intros E. eapply bne_step; eauto. exact (g_bne _ _ _ _ _ _ Hg E). exact (g_inv _ _ _ _ _ _ Hg).
+Qed.
+
+(* a state that differs only in builder stack / errors *)
+Lemma G_same : forall n st0 before bne a st st',
+  G n st0 before bne a st -> Inv n st' -> rest st' = rest st -> cur st' = cur st -> G n st0 before bne a st'.
+Proof.
+  intros n st0 before bne a st st' Hg I R C. destruct Hg as [gi gl gb gk gr gd gn ge].
+  unfold remn, moved_or_end, is_at_end, peek in *. constructor; unfold remn, moved_or_end, is_at_end, peek; rewrite ?R, ?C; auto.
+Qed.
+
+Lemma G_join_l : forall n st0 before bne a1 a2 st, G n st0 before bne a1 st -> G n st0 before bne (a_join a1 a2) st.
+Proof.
+  intros n st0 before bne a1 a2 st Hg. pose proof Hg as [gi gl gb gk gr gd gn ge].
+  constructor; auto; unfold a_join; cbn [a_known a_real a_dropped a_ns].
+  - intros ks E. destruct (a_known a1) as [x|]; [|discriminate]. destruct (a_known a2) as [y|]; [|discriminate].
+    destruct (kinds_sub x y && kinds_sub y x); [|discriminate]. injection E as <-. apply gk. reflexivity.
+  - intros E. apply andb_prop in E. eapply is_real_sound; [exact Hg | tauto].
+  - intros E. apply andb_prop in E. apply gd. tauto.
+  - intros E. apply andb_prop in E. apply gn. tauto.
+Qed.
+
+Lemma G_join_r : forall n st0 before bne a1 a2 st, G n st0 before bne a2 st -> G n st0 before bne (a_join a1 a2) st.
+Proof.
+  intros n st0 before bne a1 a2 st Hg. pose proof Hg as [gi gl gb gk gr gd gn ge].
+  constructor; auto; unfold a_join; cbn [a_known a_real a_dropped a_ns].
+  - intros ks E. destruct (a_known a1) as [x|]; [|discriminate]. destruct (a_known a2) as [y|] eqn:E2; [|discriminate].
+    destruct (kinds_sub x y && kinds_sub y x) eqn:Es; [|discriminate]. injection E as <-.
+    apply andb_prop in Es. destruct (gk y eq_refl) as [k [Hp Hin]]. exists k. split; [exact Hp|].
+    eapply kinds_sub_In; [apply Es | exact Hin].
+  - intros E. apply andb_prop in E. eapply is_real_sound; [exact Hg | tauto].
+  - intros E. apply andb_prop in E. apply gd. tauto.
+  - intros E. apply andb_prop in E. apply gn. tauto.
+Qed.
+
+Lemma refine_t_sound : forall n st0 before bne b a st,
+  G n st0 before bne a st -> eval_cond b before st = true -> G n st0 before bne (refine_t b bne a) st.
+Proof.
+  intros n st0 before bne b. induction b; intros a st Hg He; cbn [refine_t]; try exact Hg.
+  - (* CPeek *) cbn [eval_cond] in He. destruct (peek st) as [k|] eqn:P; [|discriminate].
+    destruct Hg as [gi gl gb gk gr gd gn ge]. constructor; auto; cbn [a_known a_real a_dropped a_ns].
+    + intros ks' E. injection E as <-. exists k. split; [exact P | apply tk_in_In; exact He].
+    + intros _. eapply peek_some_rest; exact P.
+  - (* CStalled *) cbn [eval_cond] in He. apply andb_prop in He. destruct He as [_ He]. apply negb_true_iff in He.
+    destruct Hg as [gi gl gb gk gr gd gn ge]. constructor; auto; cbn [a_known a_real a_dropped a_ns].
+    intros _. apply not_at_end_rest; exact He.
+  - (* CNot *) destruct b; try exact Hg. cbn [eval_cond] in He. apply negb_true_iff in He.
+    destruct Hg as [gi gl gb gk gr gd gn ge]. constructor; auto; cbn [a_known a_real a_dropped a_ns].
+    + intros _. apply not_at_end_rest; exact He.
+    + intros E. apply orb_prop in E. destruct E as [E|E]; [apply gd; exact E|].
+      apply andb_prop in E. destruct E as [E1 E2]. destruct (ge E2) as [r1 [H1 [H2 [H3 H4]]]].
+      destruct (gn E1) as [M|M]; [specialize (H4 M); lia | congruence].
+  - (* CAnd *) cbn [eval_cond] in He. apply andb_prop in He. destruct He as [H1 H2]. apply IHb2; [apply IHb1|]; assumption.
+Qed.
+
+Lemma refine_f_sound : forall n st0 before bne b a st,
+  G n st0 before bne a st -> eval_cond b before st = false -> G n st0 before bne (refine_f b a) st.
+Proof.
+  intros n st0 before bne b. induction b; intros a st Hg He; cbn [refine_f]; try exact Hg.
+  - (* CStalled *) cbn [eval_cond] in He. destruct Hg as [gi gl gb gk gr gd gn ge].
+    constructor; auto; cbn [a_known a_real a_dropped a_ns]. intros _. unfold moved_or_end.
+    apply andb_false_iff in He. destruct He as [He|He].
+    + left. apply Nat.eqb_neq. exact He.
+    + right. apply negb_false_iff. exact He.
+  - (* COr *) cbn [eval_cond] in He. apply orb_false_iff in He. destruct He as [H1 H2]. apply IHb2; [apply IHb1|]; assumption.
+Qed.
+
+(* ---------------------------------------------------------------------------------------- *)
+(* primitives                                                                                 *)
+(* ---------------------------------------------------------------------------------------- *)
+Lemma bump_real : forall st, rest st <> [] -> remn (bump st) < remn st.
+Proof. intros st H. unfold remn, bump. destruct (rest st); [congruence|]. cbn. lia. Qed.
+
+Lemma bump_moved : forall before st, before <= cur st -> moved_or_end before (bump st).
+Proof. intros before st H. left. unfold bump. destruct (rest st); cbn [cur]; lia. Qed.
+
+Lemma moe_same : forall before st st', rest st' = rest st -> cur st' = cur st -> moved_or_end before st -> moved_or_end before st'.
+Proof. intros before st st' R C H. unfold moved_or_end, is_at_end, peek in *. rewrite R, C. exact H. Qed.
+
+Lemma expect_cases : forall k st,
+  (fst (expect k st) = true /\ snd (expect k st) = bump st /\ peek st = Some k) \/
+  (fst (expect k st) = false /\ rest (snd (expect k st)) = rest st /\ cur (snd (expect k st)) = cur st).
+Proof.
+  intros k st. unfold expect. destruct (peek st) as [k'|] eqn:P.
+  - destruct (tk_eqb k' k) eqn:E.
+    + left. apply tk_eqb_eq in E. subst. auto.
+    + right. destruct (is_at_end st); cbn; auto.
+  - right. destruct (is_at_end st); cbn; auto.
+Qed.
+
+Lemma expects_cases : forall ks st,
+  (exists k, snd (expects ks st) = bump st /\ peek st = Some k /\ In k ks) \/
+  ((forall k, peek st = Some k -> ~ In k ks) /\ rest (snd (expects ks st)) = rest st /\ cur (snd (expects ks st)) = cur st).
+Proof.
+  intros ks st. unfold expects. destruct (peek st) as [k|] eqn:P.
+  - destruct (tk_in k ks) eqn:E.
+    + left. exists k. apply tk_in_In in E. auto.
+    + right. cbn. split; auto. intros k0 H0 Hin. injection H0 as <-. apply tk_in_In in Hin. congruence.
+  - right. cbn. split; auto. intros k0 H0. discriminate.
+Qed.
+
+Definition pre_holds (g : fname) (s : pstate) : Prop :=
+  (forall ks, pre g = Some ks -> exists k, peek s = Some k /\ In k ks) /\ (pre_real g = true -> rest s <> []).
+
+(* ---------------------------------------------------------------------------------------- *)
+(* soundness of chk                                                                           *)
+(* ---------------------------------------------------------------------------------------- *)
+Definition call_progress (n kb : nat) (call : fname -> option nat -> pstate -> outcome) : Prop :=
+  forall g mk s, Inv n s -> pre_holds g s -> FUEL_K * remn s + rank g + 1 <= kb ->
+    match call g mk s with
+    | OutOfFuel => False
+    | Ok s' => post g = true -> remn s' < remn s
+    | Panic _ => True
+    end.
+
+Section Soundness.
+  Variables (n kb : nat) (call : fname -> option nat -> pstate -> outcome) (f : fname) (st0 : pstate).
+  Hypothesis Hbasic : call_basic n call.
+  Hypothesis Hcall : call_progress n kb call.
+  Hypothesis Hbudget : FUEL_K * remn st0 + rank f <= kb.
+
+  Definition good (before : nat) (bne : bool) (a' : astate) (o : outcome) : Prop :=
+    match o with OutOfFuel => False | Panic _ => True | Ok st' => G n st0 before bne a' st' end.
+
+  Lemma consume_sound : forall before bne a st,
+    G n st0 before bne a st -> G n st0 before bne (a_consume a) (bump st).
+  Proof.
+    intros before bne a st Hg. eapply G_step; [exact Hg | apply Step_bump; exact (g_inv _ _ _ _ _ _ Hg) | reflexivity | reflexivity | |].
+    - cbn [a_consume a_dropped]. intros E. apply orb_prop in E. destruct E as [E|E]; [left; exact E|].
+      right. apply bump_real. eapply is_real_sound; eauto.
+    - intros _. apply bump_moved. exact (g_before _ _ _ _ _ _ Hg).
+  Qed.
+
+  Lemma forget_sound : forall before bne a st st',
+    G n st0 before bne a st -> Step n st st' -> rest st' = rest st -> cur st' = cur st ->
+    G n st0 before bne (a_forget a) st'.
+  Proof.
+    intros before bne a st st' Hg S R C. eapply G_step; [exact Hg | exact S | reflexivity | reflexivity | |].
+    - cbn [a_forget a_dropped]. auto.
+    - cbn [a_forget a_ns]. intros E. eapply moe_same; eauto. exact (g_ns _ _ _ _ _ _ Hg E).
+  Qed.
+
+  Lemma call_sound : forall g mk' bne a a' before st,
+    (if pre_ok g a && (a_dropped a || (rank g <? rank f)) then Some (a_call g a) else None) = Some a' ->
+    G n st0 before bne a st -> good before bne a' (call g mk' st).
+  Proof.
+    intros g mk' bne a a' before st Hc Hg.
+    destruct (pre_ok g a && (a_dropped a || (rank g <? rank f))) eqn:E; [|discriminate]. injection Hc as <-.
+    apply andb_prop in E. destruct E as [Hpre Hrk]. unfold pre_ok in Hpre. apply andb_prop in Hpre. destruct Hpre as [Hp1 Hp2].
+    assert (Hpre : pre_holds g st).
+    { split.
+      - intros ks Ep. rewrite Ep in Hp1. destruct (a_known a) as [ks0|] eqn:Ek; [|discriminate].
+        destruct (g_known _ _ _ _ _ _ Hg _ Ek) as [k [P Hin]]. exists k. split; [exact P|]. eapply kinds_sub_In; eauto.
+      - intros Er. rewrite Er in Hp2. cbn in Hp2. eapply is_real_sound; eauto. }
+    assert (Hb : FUEL_K * remn st + rank g + 1 <= kb).
+    { pose proof (rank_le g) as Rl. unfold max_rank in Rl. unfold FUEL_K in *. pose proof (g_le _ _ _ _ _ _ Hg) as Le.
+      apply orb_prop in Hrk. destruct Hrk as [D|D].
+      - pose proof (g_dropped _ _ _ _ _ _ Hg D). lia.
+      - apply Nat.ltb_lt in D. lia. }
+    pose proof (Hcall g mk' st (g_inv _ _ _ _ _ _ Hg) Hpre Hb) as Hc. unfold good.
+    destruct (call g mk' st) as [s'| |] eqn:Ec; auto.
+    eapply G_step; [exact Hg | eapply Hbasic; [exact (g_inv _ _ _ _ _ _ Hg) | exact Ec] | reflexivity | reflexivity | |].
+    - cbn [a_call a_dropped]. intros E. apply orb_prop in E. destruct E as [E|E]; [left; exact E | right; apply Hc; exact E].
+    - cbn. intros E. discriminate.
+  Qed.
+
+  Lemma exec_progress : forall c bne a a' before mk st,
+    chk f bne c a = Some a' -> G n st0 before bne a st -> good before bne a' (exec call c before mk st).
+  Proof.
+    induction c; intros bne a a' before mk st Hc Hg; cbn [chk] in Hc; cbn [exec]; unfold good.
+    - (* Skip *) injection Hc as <-. exact Hg.
+    - (* Seq *) destruct (chk f bne c1 a) as [a1|] eqn:C1; cbn [obind] in Hc; [|discriminate].
+      pose proof (IHc1 _ _ _ before mk st C1 Hg) as H1. unfold good in H1.
+      destruct (exec call c1 before mk st) as [st1| |]; [|exact H1|exact I].
+      exact (IHc2 _ _ _ before mk st1 Hc H1).
+    - (* Bump *) injection Hc as <-. apply consume_sound; exact Hg.
+    - (* Expect *)
+      pose proof (Step_expect n k st (g_inv _ _ _ _ _ _ Hg)) as S.
+      destruct (expect_cases k st) as [[_ [E P]]|[_ [R C]]].
+      + (* consumed *) rewrite E.
+        assert (Hcons : G n st0 before bne (a_consume a) (bump st)) by (apply consume_sound; exact Hg).
+        assert (Hforg : G n st0 before bne (a_forget a) (bump st)).
+        { eapply G_step; [exact Hg | apply Step_bump; exact (g_inv _ _ _ _ _ _ Hg) | reflexivity | reflexivity | |].
+          - cbn. auto.
+          - intros _. apply bump_moved. exact (g_before _ _ _ _ _ _ Hg). }
+        destruct (a_known a) as [[|k0 ks]|]; try (injection Hc as <-; exact Hforg).
+        destruct (forallb _ _); injection Hc as <-; assumption.
+      + (* not consumed: only possible when the abstract state did not promise it *)
+        assert (Hforg : G n st0 before bne (a_forget a) (snd (expect k st))) by (eapply forget_sound; eauto).
+        destruct (a_known a) as [[|k0 ks]|] eqn:Ek; try (injection Hc as <-; exact Hforg).
+        destruct (forallb (fun k' => tk_eqb k' k) (k0 :: ks)) eqn:Ea; injection Hc as <-; [|exact Hforg].
+        exfalso. destruct (g_known _ _ _ _ _ _ Hg _ Ek) as [k1 [P1 Hin]].
+        rewrite forallb_forall in Ea. specialize (Ea _ Hin). apply tk_eqb_eq in Ea. subst k1.
+        destruct (expect_cases k st) as [[F _]|[F _]].
+        * unfold expect in R. rewrite P1, tk_eqb_refl in R. cbn in R.
+          pose proof (peek_some_rest _ _ P1) as Hne. unfold bump in R. destruct (rest st) as [|t r]; [congruence|].
+          cbn in R. apply (f_equal (@length tok)) in R. cbn in R. lia.
+        * unfold expect in F. rewrite P1, tk_eqb_refl in F. discriminate.
+    - (* Expects *)
+      pose proof (Step_expects n ks st (g_inv _ _ _ _ _ _ Hg)) as S.
+      destruct (expects_cases ks st) as [[k [E [P Hin]]]|[Hno [R C]]].
+      + rewrite E.
+        assert (Hcons : G n st0 before bne (a_consume a) (bump st)) by (apply consume_sound; exact Hg).
+        assert (Hforg : G n st0 before bne (a_forget a) (bump st)).
+        { eapply G_step; [exact Hg | apply Step_bump; exact (g_inv _ _ _ _ _ _ Hg) | reflexivity | reflexivity | |].
+          - cbn. auto.
+          - intros _. apply bump_moved. exact (g_before _ _ _ _ _ _ Hg). }
+        destruct (a_known a) as [[|k0 ks0]|]; try (injection Hc as <-; exact Hforg).
+        destruct (kinds_sub _ _); injection Hc as <-; assumption.
+      + assert (Hforg : G n st0 before bne (a_forget a) (snd (expects ks st))) by (eapply forget_sound; eauto).
+        destruct (a_known a) as [[|k0 ks0]|] eqn:Ek; try (injection Hc as <-; exact Hforg).
+        destruct (kinds_sub (k0 :: ks0) ks) eqn:Ea; injection Hc as <-; [|exact Hforg].
+        exfalso. destruct (g_known _ _ _ _ _ _ Hg _ Ek) as [k1 [P1 Hin]].
+        apply (Hno _ P1). eapply kinds_sub_In; eauto.
+    - (* IfExpect *)
+      destruct (chk f bne c1 (mkA None false true true)) as [a1|] eqn:C1; cbn [obind] in Hc; [|discriminate].
+      destruct (chk f bne c2 (a_forget a)) as [a2|] eqn:C2; cbn [obind] in Hc; [|discriminate].
+      injection Hc as <-.
+      pose proof (Step_expect n k st (g_inv _ _ _ _ _ _ Hg)) as S.
+      destruct (expect_cases k st) as [[F [E P]]|[F [R C]]]; rewrite F.
+      + rewrite E in *.
+        assert (Hg1 : G n st0 before bne (mkA None false true true) (bump st)).
+        { eapply G_step; [exact Hg | exact S | reflexivity | reflexivity | |].
+          - intros _. right. apply bump_real. eapply peek_some_rest; exact P.
+          - intros _. apply bump_moved. exact (g_before _ _ _ _ _ _ Hg). }
+        pose proof (IHc1 _ _ _ before mk _ C1 Hg1) as H1. unfold good in H1.
+        destruct (exec call c1 before mk (bump st)); auto. apply G_join_l; exact H1.
+      + assert (Hg2 : G n st0 before bne (a_forget a) (snd (expect k st))) by (eapply forget_sound; eauto).
+        pose proof (IHc2 _ _ _ before mk _ C2 Hg2) as H2. unfold good in H2.
+        destruct (exec call c2 before mk (snd (expect k st))); auto. apply G_join_r; exact H2.
+    - (* Err *) injection Hc as <-.
+      pose proof (Step_emit_err n ek s st (g_inv _ _ _ _ _ _ Hg)) as S.
+      eapply G_same; [exact Hg | exact (st_inv _ _ _ S) | |]; unfold emit_err; destruct ek; try reflexivity; destruct (peek st); reflexivity.
+    - (* MarkKind *)
+      pose proof (Step_mark_kind n k st (g_inv _ _ _ _ _ _ Hg)) as S.
+      destruct (is_real a) eqn:Er; injection Hc as <-.
+      + pose proof (is_real_sound _ _ _ _ _ _ Hg Er) as Hne.
+        destruct Hg as [gi gl gb gk gr gd gn ge]. unfold mark_kind in *. unfold remn, moved_or_end in *.
+        destruct (rest st) as [|t r] eqn:R; [congruence|].
+        constructor; unfold remn; cbn [a_known a_real a_dropped a_ns rest cur length]; auto.
+        * exact (st_inv _ _ _ S).
+        * intros ks E. injection E as <-. exists k. split; [reflexivity | left; reflexivity].
+        * intros _. discriminate.
+        * intros E. discriminate.
+      + eapply G_step; [exact Hg | exact S | reflexivity | reflexivity | |].
+        * cbn. auto.
+        * cbn. intros E. discriminate.
+    - (* Node *)
+      pose proof (exec_basic n call Hbasic (Node k c) before mk st) as HB. cbn [exec] in HB.
+      assert (Hg1 : G n st0 before bne a (set_stack st (b_start k (stack st)))).
+      { eapply G_same; [exact Hg | | reflexivity | reflexivity].
+        apply Inv_set_stack; [exact (g_inv _ _ _ _ _ _ Hg) | discriminate | apply stack_leaves_start]. }
+      pose proof (IHc _ _ _ before None _ Hc Hg1) as H1. unfold good in H1.
+      destruct (exec call c before None (set_stack st (b_start k (stack st)))) as [st1| |]; auto.
+      eapply G_same; [exact H1 | | reflexivity | reflexivity].
+      exact (st_inv _ _ _ (HB _ (g_inv _ _ _ _ _ _ Hg) eq_refl)).
+    - (* WithMarker *) exact (IHc _ _ _ before _ st Hc Hg).
+    - (* WrapAt *)
+      destruct mk as [m|]; [|exact I].
+      pose proof (exec_basic n call Hbasic (WrapAt k c) before (Some m) st) as HB. cbn [exec] in HB.
+      destruct (b_start_at m k (stack st)) as [s1|] eqn:Es; [|exact I].
+      destruct (start_at_some _ _ _ _ (inv_stack _ _ (g_inv _ _ _ _ _ _ Hg)) Es) as [Hl Hd].
+      assert (Hg1 : G n st0 before bne a (set_stack st s1)).
+      { eapply G_same; [exact Hg | | reflexivity | reflexivity].
+        apply Inv_set_stack; [exact (g_inv _ _ _ _ _ _ Hg) | | exact Hl]. intro H0. rewrite H0 in Hd. discriminate. }
+      pose proof (IHc _ _ _ before None _ Hc Hg1) as H1. unfold good in H1.
+      destruct (exec call c before None (set_stack st s1)) as [st1| |]; auto.
+      eapply G_same; [exact H1 | | reflexivity | reflexivity].
+      exact (st_inv _ _ _ (HB _ (g_inv _ _ _ _ _ _ Hg) eq_refl)).
+    - (* SetMarkerLast *) exact (IHc _ _ _ before _ st Hc Hg).
+    - (* WithBefore *)
+      destruct (chk f (is_real a) c (mkA (a_known a) (a_real a) (a_dropped a) false)) as [a1|] eqn:C1; cbn [obind] in Hc; [|discriminate].
+      injection Hc as <-.
+      pose proof (exec_basic n call Hbasic (WithBefore c) before mk st) as HB. cbn [exec] in HB.
+      assert (Hg1 : G n st0 (cur st) (is_real a) (mkA (a_known a) (a_real a) (a_dropped a) false) st).
+      { pose proof Hg as [gi gl gb gk gr gd gn ge]. constructor; cbn [a_known a_real a_dropped a_ns]; auto.
+        - intros E. discriminate.
+        - intros E. exists (remn st). pose proof (is_real_sound _ _ _ _ _ _ Hg E) as Hne.
+          unfold remn in *. destruct (rest st); [congruence|]. cbn [length] in *. repeat split; try lia. }
+      pose proof (IHc _ _ _ (cur st) mk st C1 Hg1) as H1. unfold good in H1.
+      destruct (exec call c (cur st) mk st) as [st1| |]; auto.
+      pose proof (HB _ (g_inv _ _ _ _ _ _ Hg) eq_refl) as S.
+      destruct H1 as [hi hl hb hk hr hd hn he]. constructor; cbn [a_known a_real a_dropped a_ns]; auto.
+      + pose proof (g_before _ _ _ _ _ _ Hg). lia.
+      + intros E. discriminate.
+      + intros E. eapply bne_step with (st := st);
+          [exact (g_bne _ _ _ _ _ _ Hg E) | exact (g_before _ _ _ _ _ _ Hg) | exact (g_inv _ _ _ _ _ _ Hg) | exact S].
+    - (* If *)
+      destruct (chk f bne c1 (refine_t b bne a)) as [a1|] eqn:C1; cbn [obind] in Hc; [|discriminate].
+      destruct (chk f bne c2 (refine_f b a)) as [a2|] eqn:C2; cbn [obind] in Hc; [|discriminate].
+      injection Hc as <-.
+      destruct (eval_cond b before st) eqn:Eb.
+      + pose proof (IHc1 _ _ _ before mk st C1 (refine_t_sound _ _ _ _ _ _ _ Hg Eb)) as H1. unfold good in H1.
+        destruct (exec call c1 before mk st); auto. apply G_join_l; exact H1.
+      + pose proof (IHc2 _ _ _ before mk st C2 (refine_f_sound _ _ _ _ _ _ _ Hg Eb)) as H2. unfold good in H2.
+        destruct (exec call c2 before mk st); auto. apply G_join_r; exact H2.
+    - (* Call *) exact (call_sound f0 None bne a a' before st Hc Hg).
+    - (* CallM *) exact (call_sound f0 mk bne a a' before st Hc Hg).
+  Qed.
+End Soundness.
+
+(* ---------------------------------------------------------------------------------------- *)
+(* fuel FUEL_K * rem + rank f + 1 suffices for procedure f                                    *)
+(* ---------------------------------------------------------------------------------------- *)
+Lemma G_init : forall n f s, Inv n s -> pre_holds f s -> G n s 0 false (a_init f) s.
+Proof.
+  intros n f s I [P1 P2]. constructor; cbn [a_init a_known a_real a_dropped a_ns]; auto; try lia; intros E; discriminate.
+Qed.
+
+Lemma run_progress : forall n fuel, call_progress n fuel (run fuel).
+Proof.
+  intros n. induction fuel as [|k IH]; intros g mk s I Hp Hb; [lia|].
+  cbn [run].
+  pose proof (bodies_ok g) as Hok. unfold chk_body in Hok.
+  destruct (chk g false (body g) (a_init g)) as [a'|] eqn:C; [|discriminate].
+  assert (Hbud : FUEL_K * remn s + rank g <= k) by lia.
+  pose proof (exec_progress n k (run k) g s (run_basic n k) IH Hbud (body g) false (a_init g) a' 0 mk s C (G_init n g s I Hp)) as H.
+  unfold good in H. destruct (exec (run k) (body g) 0 mk s) as [s'| |]; auto.
+  intros Hpost. rewrite Hpost in Hok. cbn in Hok. exact (g_dropped _ _ _ _ _ _ H Hok).
+Qed.
+
+(* the whole parser *)
+Lemma parse_with_progress : forall fuel ts, parse_fuel (length ts) <= fuel -> parse_with fuel ts <> POutOfFuel.
+Proof.
+  intros fuel ts Hf H. unfold parse_with in H.
+  set (st := set_stack (init_state ts) (b_start SProgram [])) in *.
+  assert (E : exec (run fuel) while_program 0 None st <> OutOfFuel).
+  { cbn [while_program When exec eval_cond]. destruct (is_at_end st) eqn:Ae; cbn [negb]; [discriminate|].
+    pose proof (run_progress (length ts) fuel FProgramLoop None st (Inv_init ts)) as P.
+    assert (Hp : pre_holds FProgramLoop st).
+    { split; [intros ks E0; discriminate | intros _; apply not_at_end_rest; exact Ae]. }
+    assert (Hb : FUEL_K * remn st + rank FProgramLoop + 1 <= fuel).
+    { unfold parse_fuel, FUEL_K, remn, st in *. cbn in *. lia. }
+    specialize (P Hp Hb). intro Hx. rewrite Hx in P. exact P. }
+  destruct (exec (run fuel) while_program 0 None st) as [s1| |]; try congruence.
+  destruct (snd (b_finish (stack s1))); discriminate.
+Qed.
+
+Lemma parse_progress : forall ts, parse ts <> POutOfFuel.
+Proof. intros ts. apply parse_with_progress. lia. Qed.
